@@ -23,7 +23,7 @@ func TestVerif(t *testing.T) {
 		ID:    "C07",
 		Level: "model_checking",
 		Rule: "(a) every DAG of U(4) (thorough U(5) for the memory store) and the curated family x every subset of nodes x every permutation of push order x {memory, file, OCI; file store with ForceCAS over U(3) [thorough U(4)]}: after the pushes Predecessors(n) of every node of the universe (present or not) " +
-			"must equal, as a multiset, the stored manifests whose generator edge list contains n; (b) OCI: curated shapes and a chain index -> index -> manifest, root tagged or not, AutoGC on and off, followed by every sequence of <= 3 operations from {Delete(x), GC, reopen rw | fs.FS | tar | tar whose members are the half-filled layout followed by the current files, offered while nothing was removed}, same oracle after every step, " +
+			"must equal, as a multiset, the stored manifests whose generator edge list contains n; (b) OCI: curated shapes, a chain index -> index -> manifest, an index whose member descriptor embeds the member's bytes, and a manifest that is both member of an index and subject of a referrer (4 operations), root tagged or not, AutoGC on and off, followed by every sequence of <= 3 operations from {Delete(x), GC, reopen rw | fs.FS | tar | tar whose members are the half-filled layout followed by the current files, offered while nothing was removed}, same oracle after every step, " +
 			"map-order deviations O<=1 at the graph's map ranges; (c) 3 goroutines pushing parent/child/sibling concurrently under every schedule within D<=2; for the OCI store the directory is then opened again (read-write and as fs.FS) and must give the same relation. non-trivial = distinct (shape, push order) in which a parent was pushed before one of its children",
 		Assumptions: []string{
 			"OCI layouts key content by digest, so shapes in which two nodes share a digest are skipped for the OCI store",
@@ -135,7 +135,7 @@ func jobs(tier string) []driver.Job {
 		}
 	}
 	// (b) OCI delete / GC / reopen sequences
-	for _, d := range append(Curated(), Extra("index-chain")) {
+	for _, d := range append(Curated(), Extra("index-chain"), Extra("embedded-data"), Extra("index-and-referrer")) {
 		if dupDigest(d) || len(d.Nodes) > 6 {
 			continue
 		}
@@ -147,6 +147,9 @@ func jobs(tier string) []driver.Job {
 				name := fmt.Sprintf("ocihist/%s/tagroot=%v/shard%d.%d", d.Name, tagRoot, sh, nsh)
 				out = append(out, driver.Job{Name: name, Run: func(c *driver.Ctx) {
 					depth, ord := 3, 0
+					if d.Name == "index-and-referrer" {
+						depth = 4 // collect, delete the index, delete the referrer, open again
+					}
 					c.Explore(driver.Scenario{Name: name, Sequential: true, Shard: sh, NShard: nsh,
 						Make: func() (func(), func(*vs.Result) *driver.Fail) { return ociHist(c, d, tagRoot, true, depth) }})
 					c.Explore(driver.Scenario{Name: name + "/autogc=false", Sequential: true, Shard: sh, NShard: nsh,
